@@ -1,7 +1,7 @@
 (* C21 - every entry of the operator table generated from opcode_ins.py prints a Java expression that computes what the
    Dalvik instruction computes, for all operand values (division by zero included) *)
 From Coq Require Import ZArith List Bool Lia.
-Require Import V.Lib.Val V.Lib.Result V.Dad.OpSemantics V.gen.Gen_OpTable.
+Require Import V.Lib.Val V.Lib.Result V.Dad.OpSemantics V.gen.Gen_OpTable V.gen.Gen_CondTable.
 Import ListNotations.
 Open Scope Z_scope.
 
@@ -20,4 +20,24 @@ Definition arith_opcodes : list Z :=
   [123; 124; 125; 126; 129; 132; 141; 142; 143] ++ map (fun k => 144 + Z.of_nat k) (seq 0 22) ++ map (fun k => 176 + Z.of_nat k) (seq 0 22) ++
   map (fun k => 208 + Z.of_nat k) (seq 0 19).
 Theorem op_table_covers : map fst op_table = arith_opcodes.
+Proof. vm_compute. reflexivity. Qed.
+
+(* ---------------------------------------------------------------- conditional branches *)
+Definition centry_ok (p : Z * centry) : Prop := forall a b, java_cond (snd p) a b = dalvik_branch (fst p) a b.
+Theorem cond_table_correct : Forall centry_ok cond_table.
+Proof. unfold cond_table. repeat (apply Forall_cons; [unfold centry_ok; intros a b; reflexivity|]). apply Forall_nil. Qed.
+Theorem cond_table_covers : map fst cond_table = map (fun k => 50 + Z.of_nat k) (seq 0 12).
+Proof. vm_compute. reflexivity. Qed.
+(* CONDS: every operator is mapped to the one with the complementary truth value, for all operands *)
+Definition complement_ok (p : list Z * list Z) : Prop :=
+  forall a b, match java_cmp (fst p) a b, java_cmp (snd p) a b with Ok x, Ok y => y = negb x | _, _ => False end.
+Theorem conds_are_complements : Forall complement_ok conds.
+Proof.
+  unfold conds. repeat (apply Forall_cons; [unfold complement_ok; intros a b; cbn [fst snd java_cmp str_eqb list_eqb Z.eqb Pos.eqb andb];
+    try reflexivity; try (now rewrite negb_involutive); try (rewrite Z.leb_antisym; reflexivity); try (rewrite Z.ltb_antisym; reflexivity);
+    try (rewrite Z.leb_antisym, negb_involutive; reflexivity); try (rewrite Z.ltb_antisym, negb_involutive; reflexivity)|]). apply Forall_nil.
+Qed.
+(* ... and every operator a branch is printed with has its complement in the table, so Condition.neg never fails *)
+Theorem conds_cover_the_branch_operators :
+  forallb (fun p => existsb (fun q => str_eqb (fst q) (match snd p with Cond op | CondZ op => op end)) conds) cond_table = true.
 Proof. vm_compute. reflexivity. Qed.
